@@ -172,7 +172,11 @@ def gen_registry_schedules(rng, tier):
                 if rng.random() < 0.3:
                     cur = rng.randrange(nth)
                 sched.append(cur)
-        out.append(Case(f'mrg {nth} {names} {adds} {rng.choice("cuh")} ; ' + ' ; '.join(f't{t}' for t in sched), 'd_mrg', ('registry-race', 'random')))
+        col = rng.random() < 0.4          # a collector thread (index nth) racing the creators
+        if col:
+            sched = [t if rng.random() < 0.7 else nth for t in sched]
+        out.append(Case(f'mrg {nth} {names} {adds} {rng.choice("cuh")}{"+" if col else ""} ; ' + ' ; '.join(f't{t}' for t in sched), 'd_mrg',
+                        ('registry-race', 'random+collector' if col else 'random')))
     out.append(Case('mrg 0 - 1 c', 'd_mrg', ('registry-race', 'malformed')))
     out.append(Case('mrg 2 ad 1 c ; t0', 'd_mrg', ('registry-race', 'malformed')))
     return out
@@ -242,7 +246,7 @@ def oracle(case, out):
         if out.startswith('CRASH'):
             return ('handles-obtained-concurrently/no-crash', out)
         if out == 'bad-op':
-            return None if re.fullmatch(r'mrg [1-4] [abc]{1,4} [1-5] [cuh]( ; t\d+)*', case.line) is None or len(case.line.split()[2]) != int(case.line.split()[1]) else ('wellformed-case-accepted', out)
+            return None if re.fullmatch(r'mrg [1-4] [abc]{1,4} [1-5] [cuh][+]?( ; t\d+)*', case.line) is None or len(case.line.split()[2]) != int(case.line.split()[1]) else ('wellformed-case-accepted', out)
         m = re.search(r'done=(\d) rec=(\S+) got=(\S+)$', out)
         if not m or m.group(1) != '1':
             return ('handles-obtained-concurrently/terminates', out[-120:])
